@@ -5,7 +5,7 @@ CONSTANTS
   MaxT0 = 3
   MaxT = 4
   MaxPage = 3
-  MaxEnv = 2
+  MaxEnv = 3
   MaxHist = 0
   GeOp = ">="
 VIEW view
